@@ -110,8 +110,9 @@ struct WebSocketFrame
       frame.maskKey[3] = data[pos++];
     }
 
-    // Payload
-    if (data.size() < pos + payloadLen)
+    // Payload (compare against the bytes remaining: pos + payloadLen can wrap
+    // for declared lengths near 2^64, which would let resize() throw)
+    if (payloadLen > data.size() - pos)
     {
       return std::nullopt; // incomplete
     }
